@@ -6,8 +6,10 @@ package jsonval
 import (
 	"encoding/json"
 	"fmt"
+	"io/fs"
 	"math"
 	"strings"
+	"syscall"
 	"time"
 
 	"pgregory.net/rapid"
@@ -37,6 +39,15 @@ type Tagged struct {
 	private int
 }
 
+// ErrStruct is a structured value (exported fields) that also implements error, like a validation or quota-denial record.
+type ErrStruct struct {
+	Code   int64             `json:"code"`
+	Msg    string            `json:"msg"`
+	Fields map[string]string `json:"fields"`
+}
+
+func (e ErrStruct) Error() string { return "error " + e.Msg }
+
 type Embedded struct {
 	Tagged
 	Extra []interface{} `json:"extra"`
@@ -53,12 +64,12 @@ func genString(t *rapid.T, label string) string {
 
 // Gen draws a description. unenc enables unencodable leaves.
 func Gen(t *rapid.T, depth int, unenc bool) Desc {
-	kinds := []string{"null", "bool", "int", "uint", "float", "string", "string", "bytes", "number", "time", "intkeymap"}
+	kinds := []string{"null", "bool", "int", "uint", "float", "string", "string", "bytes", "number", "time", "intkeymap", "rawmsg", "errstruct", "patherror"}
 	if depth > 0 {
 		kinds = append(kinds, "map", "map", "slice", "slice", "struct", "embedded", "ptr")
 	}
 	if unenc {
-		kinds = append(kinds, "nan", "inf", "chan", "func", "complex", "badnumber")
+		kinds = append(kinds, "nan", "inf", "chan", "func", "complex", "badnumber", "badraw")
 	}
 	k := rapid.SampledFrom(kinds).Draw(t, "kind")
 	d := Desc{K: k}
@@ -83,6 +94,16 @@ func Gen(t *rapid.T, depth int, unenc bool) Desc {
 		d.S = rapid.SampledFrom([]string{"0", "-1", "1e400", "123456789012345678901234567890", "0.1", "-0"}).Draw(t, "num")
 	case "badnumber":
 		d.S = rapid.SampledFrom([]string{"abc", "1..2", "--1"}).Draw(t, "badnum")
+	case "rawmsg":
+		// valid JSON text handed over as json.RawMessage, as produced by json.MarshalIndent or read from a file: insignificant
+		// white space including line breaks
+		d.S = rapid.SampledFrom([]string{`{"a":1}`, "{\n  \"a\": 1,\n  \"b\": [\n    1,\n    2\n  ]\n}", " [1 , 2]\n", "\t{\"k\":\"v\"}\r\n", `"str"`, "null", "\n\n12\n", "{\"s\":\"line\\nbreak inside a string\"}"}).Draw(t, "raw")
+	case "badraw":
+		d.S = rapid.SampledFrom([]string{`{bad`, ``, `{"a":1}}`, "[1,\n"}).Draw(t, "badraw")
+	case "errstruct":
+		d.S = genString(t, "msg")
+		d.I = rapid.Int64Range(-3, 500).Draw(t, "code")
+		d.Bo = rapid.Bool().Draw(t, "byPointer")
 	case "time":
 		off := rapid.SampledFrom([]int{0, 3600, -7 * 3600, 5*3600 + 1800}).Draw(t, "zone")
 		d.T = time.Date(rapid.IntRange(1, 9999).Draw(t, "yr"), 6, 15, 12, 30, 45, rapid.IntRange(0, 999999999).Draw(t, "ns"), time.FixedZone("z", off))
@@ -168,6 +189,10 @@ func (d Desc) String() string {
 		return fmt.Sprintf("bytes(%d)", len(d.B))
 	case "number", "badnumber":
 		return "Number(" + d.S + ")"
+	case "rawmsg", "badraw":
+		return fmt.Sprintf("RawMessage(%q)", d.S)
+	case "errstruct":
+		return fmt.Sprintf("errstruct(%d,%q,ptr=%v)", d.I, d.S, d.Bo)
 	case "map", "intkeymap":
 		var p []string
 		for i, k := range d.Keys {
@@ -207,6 +232,15 @@ func Build(d Desc) interface{} {
 		return append([]byte(nil), d.B...)
 	case "number", "badnumber":
 		return json.Number(d.S)
+	case "rawmsg", "badraw":
+		return json.RawMessage(d.S)
+	case "errstruct":
+		if d.Bo {
+			return &ErrStruct{Code: d.I, Msg: d.S, Fields: map[string]string{"path": "/x"}}
+		}
+		return ErrStruct{Code: d.I, Msg: d.S, Fields: map[string]string{"path": "/x"}}
+	case "patherror":
+		return &fs.PathError{Op: "open", Path: "/var/log/audit.log", Err: syscall.ENOENT}
 	case "time":
 		return d.T
 	case "map":
